@@ -27,6 +27,10 @@ func checkC14(r *Report, p *Program) {
 	// no event is lost between the replay of the cache to a new handler and its registration (shared with C18)
 	r18_4(r, p)
 	sharedMapsAliased(r, p, "R14.7")
+	handedMapsFilled(r, p, "R14.8")
+	parentSelectorTable(r, p, "R14.10")
+	discoveryDefaults(r, p, "R14.11")
+	relatedNotifyTable(r, p, "R14.9")
 }
 
 func handlerLiterals(p *Program) (out []struct {
@@ -617,6 +621,13 @@ func r14_4(r *Report, p *Program) {
 	}
 	if f := fn(r, p, rule, pkg+".onRelatedDelete"); f != nil {
 		tombstoneUnwrap(r, p, rule, f, func(in ssa.Instruction) bool { return isCallTo(in, ".notifyRelatedParents") })
+		dropTable(r, p, rule, f, "related-delete-table", func(in ssa.Instruction) bool { return isCallTo(in, ".notifyRelatedParents") },
+			func(pa engine.Path) (bool, string) {
+				if tombstoneDropExcused(pa) {
+					return true, ""
+				}
+				return false, "the deletion of a related object is dropped although the event carries the object (directly or in a tombstone)"
+			})
 	}
 	if f := fn(r, p, rule, pkg+".notifyRelatedParents"); f != nil {
 		ok := false
@@ -812,4 +823,16 @@ func sharedMapsAliased(r *Report, p *Program, rule string) {
 			r.Check(rule, FK(f)+"→NewCustomizeManager[maps-aliased]", p.InstrPos(ci), ok, "the maps handed over are the ones that get filled", why)
 		}
 	}
+}
+
+// tombstoneDropExcused: a delete event may be dropped for lack of an object only when the direct assertion failed and
+// then either the tombstone assertion failed, or it succeeded and the assertion on its Obj failed.
+func tombstoneDropExcused(pa engine.Path) bool {
+	return pa.Has(false, func(a string) bool { return a == "assert<*unstructured.Unstructured>(p1)#1" }) &&
+		!pa.Has(true, func(a string) bool { return a == "assert<*unstructured.Unstructured>(p1)#1" }) &&
+		(pa.Has(false, func(a string) bool { return a == "assert<cache.DeletedFinalStateUnknown>(p1)#1" }) ||
+			pa.Has(true, func(a string) bool { return a == "assert<cache.DeletedFinalStateUnknown>(p1)#1" }) &&
+				pa.Has(false, func(a string) bool {
+					return strings.HasPrefix(a, "assert<*unstructured.Unstructured>(") && strings.HasSuffix(a, ".Obj)#1")
+				}))
 }
